@@ -4,6 +4,7 @@ import (
 	"fmt"
 	"go/constant"
 	"go/token"
+	"go/types"
 	"sort"
 	"strings"
 
@@ -53,6 +54,11 @@ func condClass(v ssa.Value, taken bool) string {
 		if lk, ok := x.Tuple.(*ssa.Lookup); ok && lk.CommaOk && x.Index == 1 {
 			return ifs(taken, "present:", "absent:") + qualField(lk.Index)
 		}
+	case *ssa.Lookup:
+		// a set kept as map[K]bool: the looked-up value is the membership answer
+		if _, isMap := x.X.Type().Underlying().(*types.Map); isMap && !x.CommaOk && x.Type().String() == "bool" {
+			return ifs(taken, "present:", "absent:") + qualField(x.Index)
+		}
 	case *ssa.Call:
 		if Named("strings.Contains")(x.Common()) {
 			sub := ""
@@ -88,19 +94,170 @@ func qualField(v ssa.Value) string {
 // originField: v is strings.TrimSpace(field) or the field itself.
 func originField(v ssa.Value) string {
 	if call, ok := v.(*ssa.Call); ok && Named("strings.TrimSpace")(call.Common()) {
-		return qualField(call.Call.Args[0])
+		return originField(call.Call.Args[0])
 	}
-	return qualField(v)
+	q := qualField(v)
+	if strings.HasPrefix(q, "File.") {
+		return q
+	}
+	// a copy of a File field (table element, loop variable, helper parameter): name the fields
+	// it can come from
+	if fs := tableOrigins(v); len(fs) > 0 {
+		return "TABLE{" + strings.Join(fs, ",") + "}"
+	}
+	return q
+}
+
+// paramArgsHook resolves a parameter to the arguments it receives at the call sites of its
+// function (set by C38 for the validation group).
+var paramArgsHook func(p *ssa.Parameter) []ssa.Value
+
+// tableOrigins: the File.* string fields whose values can flow into v through local copies –
+// a table literal the function builds and loops over, a loop variable, a helper's parameter.
+// Field- and flow-insensitive closure over loads, element/field projections, stores into the
+// same local, phis and strings.TrimSpace.
+func tableOrigins(v ssa.Value) []string {
+	set := map[string]bool{}
+	seen := map[ssa.Value]bool{}
+	work := []ssa.Value{v}
+	push := func(x ssa.Value) {
+		if x != nil && !seen[x] {
+			work = append(work, x)
+		}
+	}
+	var storesInto func(addr ssa.Value, depth int)
+	storesInto = func(addr ssa.Value, depth int) {
+		if depth <= 0 || addr.Referrers() == nil {
+			return
+		}
+		for _, r := range *addr.Referrers() {
+			switch x := r.(type) {
+			case *ssa.Store:
+				if x.Addr == addr {
+					push(x.Val)
+				}
+			case *ssa.IndexAddr:
+				if x.X == addr {
+					storesInto(x, depth-1)
+				}
+			case *ssa.FieldAddr:
+				if x.X == addr {
+					storesInto(x, depth-1)
+				}
+			case *ssa.Slice:
+				if x.X == addr {
+					storesInto(x, depth-1)
+				}
+			}
+		}
+	}
+	for n := 0; len(work) > 0 && n < 400; n++ {
+		cur := work[len(work)-1]
+		work = work[:len(work)-1]
+		if cur == nil || seen[cur] {
+			continue
+		}
+		seen[cur] = true
+		if q := qualField(cur); strings.HasPrefix(q, "File.") {
+			set[q] = true
+			continue
+		}
+		switch x := cur.(type) {
+		case *ssa.UnOp:
+			push(x.X)
+		case *ssa.FieldAddr:
+			push(x.X)
+		case *ssa.Field:
+			push(x.X)
+		case *ssa.IndexAddr:
+			push(x.X)
+		case *ssa.Index:
+			push(x.X)
+		case *ssa.Slice:
+			push(x.X)
+		case *ssa.Convert:
+			push(x.X)
+		case *ssa.ChangeType:
+			push(x.X)
+		case *ssa.Phi:
+			for _, e := range x.Edges {
+				push(e)
+			}
+		case *ssa.Extract:
+			push(x.Tuple)
+		case *ssa.Next:
+			push(x.Iter)
+		case *ssa.Range:
+			push(x.X)
+		case *ssa.Alloc:
+			storesInto(x, 4)
+		case *ssa.Call:
+			if Named("strings.TrimSpace")(x.Common()) {
+				push(x.Call.Args[0])
+			}
+		case *ssa.Parameter:
+			if paramArgsHook != nil {
+				for _, a := range paramArgsHook(x) {
+					push(a)
+				}
+			}
+		}
+	}
+	var out []string
+	for k := range set {
+		out = append(out, k)
+	}
+	sort.Strings(out)
+	return out
 }
 
 func C38(c *Ctx) {
 	c.Note("path-sensitivity beyond dominance of loop back edges; JSON decoding before Validate")
 	const r1 = "K14.rejection-table"
-	c.Rule(r1, "config.(*File).Validate: every listed defect class has a guard whose taken edge returns a non-nil error – Store.StoreID == 0; duplicate Store.StoreID (present in the seen-set); Region.ID == 0; Peer.StoreID == 0; Peer.PeerID == 0; Peer.StoreID / non-zero Region.LeaderStoreID absent from the store set; each work-dir template non-empty and lacking \"{id}\" – and every error return of Validate is reached only through guards of those classes (plus the nil-receiver guard): nothing else is rejected")
-	fn := c.Fn("config", "File.Validate")
-	if fn == nil {
+	c.Rule(r1, "config.(*File).Validate, together with the package functions it calls: every listed defect class has a guard whose taken edge returns a non-nil error – Store.StoreID == 0; duplicate Store.StoreID (present in the seen-set); Region.ID == 0; Peer.StoreID == 0; Peer.PeerID == 0; Peer.StoreID / non-zero Region.LeaderStoreID absent from the store set; each work-dir template non-empty and lacking \"{id}\" – every error created there is reached only through guards of those classes (plus the nil-receiver guard), and a helper's error is handed on: nothing else is rejected")
+	root := c.Fn("config", "File.Validate")
+	if root == nil {
 		return
 	}
+	// the validation group: Validate and the same-package functions it (transitively) calls
+	var group []*ssa.Function
+	inGroup := map[*ssa.Function]bool{}
+	var walk func(f *ssa.Function, depth int)
+	walk = func(f *ssa.Function, depth int) {
+		if f == nil || inGroup[f] || depth > 3 {
+			return
+		}
+		inGroup[f] = true
+		group = append(group, f)
+		c.Touch(f)
+		AllInstrs(f, false, func(in ssa.Instruction) {
+			if ci, ok := in.(ssa.CallInstruction); ok {
+				if h := StaticFn(ci.Common()); h != nil && h.Blocks != nil && FuncPkgPath(h) == FuncPkgPath(root) && ErrorResultIndex(h) >= 0 {
+					walk(h, depth+1)
+				}
+			}
+		})
+	}
+	walk(root, 0)
+	paramArgsHook = func(p *ssa.Parameter) []ssa.Value {
+		f := p.Parent()
+		idx := -1
+		for i, q := range f.Params {
+			if q == p {
+				idx = i
+			}
+		}
+		var out []ssa.Value
+		for _, g := range group {
+			AllInstrs(g, false, func(in ssa.Instruction) {
+				if ci, ok := in.(ssa.CallInstruction); ok && StaticFn(ci.Common()) == f && idx >= 0 && idx < len(ci.Common().Args) {
+					out = append(out, ci.Common().Args[idx])
+				}
+			})
+		}
+		return out
+	}
+	defer func() { paramArgsHook = nil }()
 	want := map[string]bool{
 		"zero:Store.StoreID": true, "present:Store.StoreID": true, "zero:Region.ID": true, "zero:Peer.StoreID": true, "zero:Peer.PeerID": true,
 		"absent:Peer.StoreID": true, "absent:Region.LeaderStoreID": true,
@@ -109,27 +266,48 @@ func C38(c *Ctx) {
 	allowedExtra := map[string]bool{"nil-receiver": true}
 	found := map[string]bool{}
 	nret := 0
-	for _, r := range Returns(fn) {
-		if !ProvablyNonNil(RetVal(r, 0), r, 0) {
-			continue
-		}
-		nret++
-		rb := r.Block()
-		var classes []string
-		for _, p := range rb.Preds {
-			classes = append(classes, guardClasses(fn, p, rb))
-		}
-		sort.Strings(classes)
-		k := key(fn, fmt.Sprintf("error-return[%s]", strings.Join(classes, "|")))
-		bad := ""
-		for _, cl := range classes {
-			if want[cl] {
-				found[cl] = true
-			} else if !allowedExtra[cl] {
-				bad = cl
+	// guardBlocks[class] = the branch blocks (with their function) that reject that class
+	type site struct {
+		f *ssa.Function
+		b *ssa.BasicBlock
+	}
+	guardBlocks := map[string][]site{}
+	for _, fn := range group {
+		ei := ErrorResultIndex(fn)
+		for _, r := range Returns(fn) {
+			rv := RetVal(r, ei)
+			if !ProvablyNonNil(rv, r, 0) {
+				continue
 			}
+			// a helper's error handed on is not a rejection of its own
+			if fromGroupCall(rv, inGroup, 4) {
+				continue
+			}
+			nret++
+			rb := r.Block()
+			var classes []string
+			for _, p := range rb.Preds {
+				for _, cl := range expandClass(guardClasses(fn, p, rb)) {
+					classes = append(classes, cl)
+					guardBlocks[cl] = append(guardBlocks[cl], site{fn, p})
+				}
+			}
+			sort.Strings(classes)
+			k := key(root, fmt.Sprintf("error-return[%s]", strings.Join(classes, "|")))
+			bad := ""
+			for _, cl := range classes {
+				if want[cl] {
+					found[cl] = true
+				} else if !allowedExtra[cl] {
+					bad = cl
+				}
+			}
+			c.Decide(bad == "", r1, k, r.Pos(), len(classes)+1, "rejection belongs to a listed defect class", "Validate rejects on a condition outside the listed defect classes: "+bad+" (a well-formed topology would be refused, or a listed guard was altered)")
 		}
-		c.Decide(bad == "", r1, k, r.Pos(), len(classes)+1, "rejection belongs to a listed defect class", "Validate rejects on a condition outside the listed defect classes: "+bad+" (a well-formed topology would be refused, or a listed guard was altered)")
+		// errors of group callees are propagated
+		for _, ci := range Calls(fn, false, func(cc *ssa.CallCommon) bool { h := StaticFn(cc); return h != nil && inGroup[h] && h != fn }) {
+			errPropagated(c, r1, key(fn, "propagates:"+FuncName(StaticFn(ci.Common()))), fn, ci)
+		}
 	}
 	var names []string
 	for w := range want {
@@ -137,130 +315,242 @@ func C38(c *Ctx) {
 	}
 	sort.Strings(names)
 	for _, w := range names {
-		c.Decide(found[w], r1, key(fn, "row:"+w), fn.Pos(), 1, "defect class is rejected", "no guard rejecting the defect class `"+w+"` leads to an error return: such a topology is accepted")
+		c.Decide(found[w], r1, key(root, "row:"+w), root.Pos(), 1, "defect class is rejected", "no guard rejecting the defect class `"+w+"` leads to an error return: such a topology is accepted")
 	}
-	c.Floor(r1, nret, 8, "error returns of Validate")
+	c.Floor(r1, nret, 7, "error returns of Validate")
 
 	const r2 = "K1.guard-preconditions"
-	c.Rule(r2, "the template rejections require a non-empty trimmed template; the leader-store membership test is applied exactly when LeaderStoreID != 0; the loops range over all Stores, all Regions and all Peers of each region; every store id is inserted into the seen-set and the store loop completes before the region loop starts; the single nil return is reached after all loops")
-	// template guard: lacks({id}) preceded by nonempty on the same field
-	for _, fld := range []string{"File.StoreWorkDirTemplate", "File.StoreDockerWorkDirTemplate"} {
-		ok := false
-		for _, b := range fn.Blocks {
-			if ifi := ifOf(b); ifi != nil && condClass(ifi.Cond, true) == "nonempty:"+fld {
-				// its true edge leads to the Contains test
-				if t := ifOf(b.Succs[0]); t != nil && (condClass(t.Cond, true) == "lacks({id}):"+fld || condClass(t.Cond, false) == "lacks({id}):"+fld) {
-					ok = true
+	c.Rule(r2, "the template rejections require a non-empty trimmed template; the leader-store membership test is applied exactly when LeaderStoreID != 0; the loops range over all Stores, all Regions and all Peers of each region; every store id is inserted into the seen-set and the store set is complete before it is consulted; an accepting return is reached only after all loops")
+	// precondition edges: the rejecting branch of class `cl` is dominated by the taken edge of a test of class `pre`
+	dominatedBy := func(cl, pre string) bool {
+		sites := guardBlocks[cl]
+		if len(sites) == 0 {
+			return false
+		}
+		for _, st := range sites {
+			ok := false
+			for _, b := range st.f.Blocks {
+				ifi := ifOf(b)
+				if ifi == nil {
+					continue
+				}
+				for si, pol := range []bool{true, false} {
+					for _, k := range expandClass(condClass(ifi.Cond, pol)) {
+						if k == pre && (EdgeDominates(b, b.Succs[si], st.b) || b.Succs[si] == st.b && len(st.b.Preds) == 1) {
+							ok = true
+						}
+					}
 				}
 			}
-		}
-		c.Decide(ok, r2, key(fn, "template:"+fld+"#nonempty&&lacks"), fn.Pos(), 2, "only a non-empty template without {id} is rejected", "the template guard for "+fld+" is no longer `non-empty && !Contains(\"{id}\")`")
-	}
-	// leader: nonzero then absent
-	okLeader := false
-	for _, b := range fn.Blocks {
-		if ifi := ifOf(b); ifi != nil && condClass(ifi.Cond, true) == "nonzero:Region.LeaderStoreID" {
-			if t := ifOf(b.Succs[0]); t != nil && condClass(t.Cond, false) == "absent:Region.LeaderStoreID" || ifOf(b.Succs[0]) != nil && condClass(ifOf(b.Succs[0]).Cond, true) == "absent:Region.LeaderStoreID" {
-				okLeader = true
+			if !ok {
+				return false
 			}
 		}
+		return true
 	}
-	c.Decide(okLeader, r2, key(fn, "leader:nonzero→membership"), fn.Pos(), 2, "leader store is checked for membership exactly when set", "the leader-store membership guard is no longer conditioned on LeaderStoreID != 0")
+	for _, fld := range []string{"File.StoreWorkDirTemplate", "File.StoreDockerWorkDirTemplate"} {
+		c.Decide(dominatedBy("lacks({id}):"+fld, "nonempty:"+fld), r2, key(root, "template:"+fld+"#nonempty&&lacks"), root.Pos(), 2, "only a non-empty template without {id} is rejected", "the template guard for "+fld+" is no longer `non-empty && !Contains(\"{id}\")`")
+	}
+	c.Decide(dominatedBy("absent:Region.LeaderStoreID", "nonzero:Region.LeaderStoreID"), r2, key(root, "leader:nonzero→membership"), root.Pos(), 2, "leader store is checked for membership exactly when set", "the leader-store membership guard is no longer conditioned on LeaderStoreID != 0")
 	// loops
 	ranged := map[string]bool{}
-	AllInstrs(fn, false, func(in ssa.Instruction) {
-		if call, ok := in.(*ssa.Call); ok {
-			if bi, ok := call.Call.Value.(*ssa.Builtin); ok && bi.Name() == "len" {
-				ranged[qualField(call.Call.Args[0])] = true
+	for _, fn := range group {
+		AllInstrs(fn, false, func(in ssa.Instruction) {
+			if call, ok := in.(*ssa.Call); ok {
+				if bi, ok := call.Call.Value.(*ssa.Builtin); ok && bi.Name() == "len" {
+					ranged[qualField(call.Call.Args[0])] = true
+				}
 			}
-		}
-	})
+		})
+	}
 	for _, f := range []string{"File.Stores", "File.Regions", "Region.Peers"} {
-		c.Decide(ranged[f], r2, key(fn, "ranges:"+f), fn.Pos(), 1, "all elements are visited", f+" is no longer ranged over in Validate")
+		c.Decide(ranged[f], r2, key(root, "ranges:"+f), root.Pos(), 1, "all elements are visited", f+" is no longer ranged over in Validate")
 	}
-	// no `continue`/break that skips guards: each loop body has no jump back to the header other than the final one:
-	// approximated by requiring exactly 3 rangeindex loops and the inserted seen-set update in the store loop
-	loops := 0
-	for _, b := range fn.Blocks {
-		if b.Comment == "rangeindex.loop" {
-			loops++
-		}
-	}
-	c.Decide(loops == 3, r2, key(fn, "three-loops"), fn.Pos(), loops+1, "stores, regions and peers loops", fmt.Sprintf("%d range loops in Validate (expected 3)", loops))
+	// the seen-set: inserted for every store, complete before it is consulted
 	var ins []ssa.Instruction
-	AllInstrs(fn, false, func(in ssa.Instruction) {
-		if mu, ok := in.(*ssa.MapUpdate); ok && qualField(mu.Key) == "Store.StoreID" {
-			ins = append(ins, in)
-		}
-	})
-	c.Decide(len(ins) == 1, r2, key(fn, "seen-set-insert"), fn.Pos(), 1, "every store id enters the seen-set", "store ids are no longer inserted into the seen-set (duplicates and unknown-store references go unnoticed)")
-	// membership lookups happen after the store loop: the insert's loop exit dominates them
-	for _, b := range fn.Blocks {
-		for _, in := range b.Instrs {
-			if lk, ok := in.(*ssa.Lookup); ok && lk.CommaOk && (qualField(lk.Index) == "Peer.StoreID" || qualField(lk.Index) == "Region.LeaderStoreID") {
-				okOrder := len(ins) == 1 && blockReaches(ins[0].Block(), b) && !blockReaches(b, ins[0].Block())
-				c.Decide(okOrder, r2, key(fn, "lookup("+qualField(lk.Index)+")-after-store-loop"), in.Pos(), 2, "store set is complete before it is consulted", "a membership lookup can run before the store set is complete")
+	var lookups []ssa.Instruction
+	for _, fn := range group {
+		AllInstrs(fn, false, func(in ssa.Instruction) {
+			if mu, ok := in.(*ssa.MapUpdate); ok && qualField(mu.Key) == "Store.StoreID" {
+				ins = append(ins, in)
+			}
+			if lk, ok := in.(*ssa.Lookup); ok && (qualField(lk.Index) == "Peer.StoreID" || qualField(lk.Index) == "Region.LeaderStoreID") {
+				if _, isMap := lk.X.Type().Underlying().(*types.Map); isMap {
+					lookups = append(lookups, in)
+				}
+			}
+		})
+	}
+	c.Decide(len(ins) == 1, r2, key(root, "seen-set-insert"), root.Pos(), 1, "every store id enters the seen-set", "store ids are no longer inserted into the seen-set (duplicates and unknown-store references go unnoticed)")
+	for _, lk := range lookups {
+		okOrder := false
+		if len(ins) == 1 {
+			fi, fl := ins[0].Parent(), lk.Parent()
+			if fi == fl {
+				okOrder = blockReaches(ins[0].Block(), lk.Block()) && !blockReaches(lk.Block(), ins[0].Block())
+			} else {
+				okOrder = callOrdered(group, fi, fl)
 			}
 		}
+		idx := qualField(lk.(*ssa.Lookup).Index)
+		c.Decide(okOrder, r2, key(root, "lookup("+idx+")-after-store-loop"), lk.Pos(), 2, "store set is complete before it is consulted", "a membership lookup can run before the store set is complete")
 	}
-	// every iteration passes through the per-element guards: the guard's test block dominates every
-	// back edge of its innermost loop (a `continue` placed before the guard breaks this)
+	// every iteration passes through the per-element guards
 	const r3 = "K1.guards-on-every-iteration"
-	c.Rule(r3, "each per-element rejection guard of Validate (zero/duplicate store id, zero region id, zero peer store/peer id, peer store membership) dominates every back edge of the innermost loop that contains it, so no element can reach the next iteration without having been tested")
-	perElem := map[string]bool{"zero:Store.StoreID": true, "present:Store.StoreID": true, "zero:Region.ID": true, "zero:Peer.StoreID": true, "zero:Peer.PeerID": true, "absent:Peer.StoreID": true}
-	var hdrs []*ssa.BasicBlock
-	for _, b := range fn.Blocks {
-		if b.Comment == "rangeindex.loop" {
-			hdrs = append(hdrs, b)
+	c.Rule(r3, "each per-element rejection guard of Validate (zero/duplicate store id, zero region id, zero peer store/peer id, peer store membership) dominates every back edge of the innermost loop that contains it (in its own function, or – for a guard in a per-element helper – the helper's call does), so no element can reach the next iteration without having been tested")
+	perElem := []string{"zero:Store.StoreID", "present:Store.StoreID", "zero:Region.ID", "zero:Peer.StoreID", "zero:Peer.PeerID", "absent:Peer.StoreID"}
+	for _, cl := range perElem {
+		sites := guardBlocks[cl]
+		if len(sites) == 0 {
+			c.Fail(r3, key(root, "guard:"+cl+"#dominates-back-edges"), root.Pos(), 1, "per-element guard %s not found as a branch condition", cl)
+			continue
+		}
+		bad := 0
+		for _, st := range sites {
+			bad += skippingBackEdges(group, st.f, st.b, 2)
+		}
+		c.Decide(bad == 0, r3, key(root, "guard:"+cl+"#dominates-back-edges"), sites[0].b.Instrs[len(sites[0].b.Instrs)-1].Pos(), len(sites)+1, "tested on every iteration", fmt.Sprintf("%d path(s) reach the next iteration without testing `%s`: an element with that defect can be accepted", bad, cl))
+	}
+	// accepting returns: the root's nil returns come after its loops / helper calls
+	succ := 0
+	for _, r := range Returns(root) {
+		rv := RetVal(r, ErrorResultIndex(root))
+		if IsNilConst(rv) || (!ProvablyNonNil(rv, r, 0) && fromGroupCall(rv, inGroup, 4)) {
+			succ++
 		}
 	}
-	checked := map[string]bool{}
-	for _, b := range fn.Blocks {
-		ifi := ifOf(b)
-		if ifi == nil {
-			continue
+	c.Decide(succ >= 1 && succ <= 2, r2, key(root, "single-accept"), root.Pos(), succ+1, "accepting return at the end", fmt.Sprintf("%d accepting returns (an early nil return would skip later guards)", succ))
+}
+
+// expandClass: a class whose field could not be named directly but whose value comes out of a
+// local table built from named fields stands for one class per such field.
+func expandClass(cl string) []string {
+	i := strings.Index(cl, "TABLE{")
+	if i < 0 {
+		return []string{cl}
+	}
+	prefix := cl[:i]
+	body := strings.TrimSuffix(cl[i+len("TABLE{"):], "}")
+	var out []string
+	for _, f := range strings.Split(body, ",") {
+		if f != "" {
+			out = append(out, prefix+f)
 		}
-		cl := ""
-		for _, pol := range []bool{true, false} {
-			if k := condClass(ifi.Cond, pol); perElem[k] {
-				cl = k
+	}
+	return out
+}
+
+// fromGroupCall: v is (a phi/extract of) the error result of a call to a function of the group.
+func fromGroupCall(v ssa.Value, inGroup map[*ssa.Function]bool, depth int) bool {
+	if depth <= 0 || v == nil {
+		return false
+	}
+	switch x := v.(type) {
+	case *ssa.Call:
+		h := StaticFn(x.Common())
+		return h != nil && inGroup[h]
+	case *ssa.Extract:
+		return fromGroupCall(x.Tuple, inGroup, depth-1)
+	case *ssa.Phi:
+		for _, e := range x.Edges {
+			if fromGroupCall(e, inGroup, depth-1) {
+				return true
 			}
 		}
-		if cl == "" {
+	}
+	return false
+}
+
+// callOrdered: in some function of the group, every call that (transitively) leads to `second`
+// is preceded by one that leads to `first` (or `second` is that function itself and the call to
+// `first` dominates its use).
+func callOrdered(group []*ssa.Function, first, second *ssa.Function) bool {
+	leadsTo := func(h, target *ssa.Function) bool {
+		if h == target {
+			return true
+		}
+		found := false
+		AllInstrs(h, false, func(in ssa.Instruction) {
+			if ci, ok := in.(ssa.CallInstruction); ok && StaticFn(ci.Common()) == target {
+				found = true
+			}
+		})
+		return found
+	}
+	for _, p := range group {
+		var a, b []ssa.Instruction
+		AllInstrs(p, false, func(in ssa.Instruction) {
+			ci, ok := in.(ssa.CallInstruction)
+			if !ok {
+				return
+			}
+			h := StaticFn(ci.Common())
+			if h == nil {
+				return
+			}
+			if leadsTo(h, first) {
+				a = append(a, in)
+			}
+			if leadsTo(h, second) {
+				b = append(b, in)
+			}
+		})
+		if len(a) == 0 || len(b) == 0 {
 			continue
 		}
-		// innermost loop containing b
-		var inner map[*ssa.BasicBlock]bool
-		var hdr *ssa.BasicBlock
-		for _, h := range hdrs {
-			l := NaturalLoop(h)
-			if l[b] && (inner == nil || len(l) < len(inner)) {
-				inner, hdr = l, h
+		ok := true
+		for _, y := range b {
+			if pre, _ := MustPrecede(p, y, a); !pre {
+				ok = false
 			}
 		}
-		if hdr == nil {
-			c.Fail(r3, key(fn, "guard:"+cl+"#in-loop"), ifi.Cond.Pos(), 1, "per-element guard %s is not inside a loop", cl)
-			continue
+		return ok
+	}
+	return false
+}
+
+// skippingBackEdges counts the ways an element can reach the next iteration without passing
+// block b of function f: in f's innermost loop around b, or – when b is not inside a loop of f –
+// in the loops of the group functions that call f.
+func skippingBackEdges(group []*ssa.Function, f *ssa.Function, b *ssa.BasicBlock, depth int) int {
+	var hdrs []*ssa.BasicBlock
+	for _, h := range f.Blocks {
+		if h.Comment == "rangeindex.loop" || h.Comment == "for.loop" || h.Comment == "rangeiter.loop" {
+			hdrs = append(hdrs, h)
 		}
+	}
+	var inner map[*ssa.BasicBlock]bool
+	var hdr *ssa.BasicBlock
+	for _, h := range hdrs {
+		l := NaturalLoop(h)
+		if l[b] && (inner == nil || len(l) < len(inner)) {
+			inner, hdr = l, h
+		}
+	}
+	if hdr != nil {
 		bad := 0
 		for _, p := range hdr.Preds {
 			if hdr.Dominates(p) && !b.Dominates(p) {
 				bad++
 			}
 		}
-		checked[cl] = true
-		c.Decide(bad == 0, r3, key(fn, "guard:"+cl+"#dominates-back-edges"), ifi.Cond.Pos(), len(hdr.Preds)+1, "tested on every iteration", fmt.Sprintf("%d path(s) reach the next iteration without testing `%s`: an element with that defect can be accepted", bad, cl))
+		return bad
 	}
-	for cl := range perElem {
-		if !checked[cl] {
-			c.Fail(r3, key(fn, "guard:"+cl+"#dominates-back-edges"), fn.Pos(), 1, "per-element guard %s not found as a branch condition", cl)
-		}
+	if depth <= 0 {
+		return 1
 	}
-	succ := 0
-	for _, r := range Returns(fn) {
-		if IsNilConst(RetVal(r, 0)) {
-			succ++
-		}
+	// b is straight-line code of f: every call of f must itself be on every iteration
+	bad, calls := 0, 0
+	for _, p := range group {
+		AllInstrs(p, false, func(in ssa.Instruction) {
+			if ci, ok := in.(ssa.CallInstruction); ok && StaticFn(ci.Common()) == f {
+				calls++
+				bad += skippingBackEdges(group, p, in.Block(), depth-1)
+			}
+		})
 	}
-	c.Decide(succ == 1, r2, key(fn, "single-accept"), fn.Pos(), succ+1, "one accepting return at the end", fmt.Sprintf("%d accepting returns (an early nil return would skip later guards)", succ))
+	if calls == 0 {
+		return 1
+	}
+	return bad
 }
